@@ -343,7 +343,7 @@ pub struct RunOpts {
 struct Acc {
     evaluations: u64,
     nontrivial: u64,
-    sigs: BTreeSet<u64>,
+    sigs: Vec<u64>,
     probes: BTreeMap<&'static str, u64>,
     faults: BTreeMap<&'static str, u64>,
     stats: SeamStats,
@@ -364,7 +364,7 @@ impl Acc {
         Acc {
             evaluations: 0,
             nontrivial: 0,
-            sigs: BTreeSet::new(),
+            sigs: Vec::new(),
             probes: BTreeMap::new(),
             faults: BTreeMap::new(),
             stats: SeamStats::default(),
@@ -385,6 +385,10 @@ impl Acc {
         self.evaluations += o.evaluations;
         self.nontrivial += o.nontrivial;
         self.sigs.extend(o.sigs);
+        if self.sigs.len() > 1 << 22 {
+            self.sigs.sort_unstable();
+            self.sigs.dedup();
+        }
         for (k, v) in o.probes {
             *self.probes.entry(k).or_insert(0) += v;
         }
@@ -469,7 +473,7 @@ fn search(def: &CheckDef, opts: &RunOpts, total: u64) -> Acc {
                             Verdict::Ok => {
                                 if ctx.nontrivial {
                                     a.nontrivial += 1;
-                                    a.sigs.insert(ctx.sig.0);
+                                    a.sigs.push(ctx.sig.0);
                                 }
                                 for (k, n) in ctx.probes {
                                     *a.probes.entry(k).or_insert(0) += n;
@@ -515,6 +519,8 @@ pub fn run_check(def: &CheckDef, opts: &RunOpts) -> i32 {
     };
 
     let mut acc = search(def, opts, total);
+    acc.sigs.sort_unstable();
+    acc.sigs.dedup();
     acc.failures.sort();
     acc.samples.sort_by_key(|s| s.0);
     acc.harness.sort();
